@@ -518,7 +518,7 @@ class _SubstConst(ast.NodeTransformer):
 
 # ------------------------------------------------------------------------------------------------ M  moved functions
 
-def moved_functions(trees: dict[str, ast.Module], ref_funcs: dict[str, list[str]], ref_hash=None):
+def moved_functions(trees: dict[str, ast.Module], ref_funcs: dict[str, list[str]], ref_hash=None, ref_src=None):
     """(file A, qualname) of the reference -> (file B, qualname') in the current program.  A function that was
     moved *and* renamed is recognised by its unchanged body and given its old name back first."""
     from .alpha import _functions
@@ -550,6 +550,65 @@ def moved_functions(trees: dict[str, ast.Module], ref_funcs: dict[str, list[str]
             for t in trees.values():
                 _RenameAll(ren).visit(t)
             cur = {rel: {q: fn for q, fn in _functions(t)} for rel, t in trees.items()}
+    # moved, renamed *and* edited: a vanished reference function and a new function that share most of their statement
+    # heads (locals masked), when the pairing is unambiguous; the new function gets the old name back (it occurs
+    # nowhere in the current program, so the rename is consistent whatever the match was)
+    if ref_src:
+        still = [(rel, q) for rel, qs in ref_funcs.items() for q in qs
+                 if '<locals>' not in q and q not in cur.get(rel, {})]
+        allnames = set()
+        for t in trees.values():
+            allnames |= identifiers(t)
+        freshf = []
+        for rel, fs in cur.items():
+            known = set(ref_funcs.get(rel, []))
+            for q, fn in fs.items():
+                if q not in known and '<locals>' not in q:
+                    freshf.append((rel, q, fn))
+        still = [(rel, q) for rel, q in still if q.rsplit('.', 1)[-1] not in allnames]
+        if still and freshf:
+            def heads(fn):
+                m = ast.Module(body=[fn], type_ignores=[])
+                return Counter(t for t in statement_texts(m) if not t.startswith('def '))
+            fh = [(rel, q, fn, heads(fn)) for rel, q, fn in freshf]
+            scored = []
+            for rel, q in still:
+                src = ref_src.get(rel, {}).get(q)
+                if not src:
+                    continue
+                try:
+                    rh = heads(ast.parse(src).body[0])
+                except (SyntaxError, IndexError):
+                    continue
+                tot = sum(rh.values())
+                if tot < 4:
+                    continue
+                for frel, fq, fn, ch in fh:
+                    inter = sum((rh & ch).values())
+                    sim = inter / max(tot, sum(ch.values()) or 1)
+                    if sim >= 0.6:
+                        scored.append((sim, rel, q, frel, fq, fn))
+            scored.sort(key=lambda x: -x[0])
+            ren2, used_r, used_f = {}, set(), set()
+            for sim, rel, q, frel, fq, fn in scored:
+                if (rel, q) in used_r or (frel, fq) in used_f:
+                    continue
+                rivals = [s2 for s2, r2, q2, fr2, fq2, _ in scored
+                          if ((r2, q2) == (rel, q)) != ((fr2, fq2) == (frel, fq)) and s2 > sim - 0.1]
+                if rivals:
+                    continue
+                used_r.add((rel, q))
+                used_f.add((frel, fq))
+                old_name = q.rsplit('.', 1)[-1]
+                if fn.name != old_name and fn.name not in ren2:
+                    # the new spelling must not be shared with something else
+                    if sum(1 for t in trees.values() for x in ast.walk(t)
+                           if isinstance(x, (ast.FunctionDef, ast.AsyncFunctionDef, ast.ClassDef)) and x.name == fn.name) == 1:
+                        ren2[fn.name] = old_name
+            if ren2:
+                for t in trees.values():
+                    _RenameAll(ren2).visit(t)
+                cur = {rel: {q: fn for q, fn in _functions(t)} for rel, t in trees.items()}
     vanished = [(rel, q) for rel, qs in ref_funcs.items() for q in qs
                 if '<locals>' not in q and q not in cur.get(rel, {})]
     if not vanished:
@@ -779,7 +838,7 @@ def apply(files: list[tuple[str, str, ast.Module, str]], R: dict) -> dict:
             _RenameAll(mp).visit(t)
         info['renamed'] = mp
     # M
-    info['moved'] = moved_functions(trees, R.get('__funcs__', {}), R.get('__bodyhash__'))
+    info['moved'] = moved_functions(trees, R.get('__funcs__', {}), R.get('__bodyhash__'), R.get('__src__'))
     # D X T A (structnorm.py): definitions put back where the reference has them, helpers of other modules pulled in,
     # record classes erased, parameter objects dissolved
     import os
